@@ -146,6 +146,12 @@ func (ex *Exec) VerifyFunc(ct *Contract) (res *FuncResult) {
 		if len(results) == 1 {
 			rv["result"] = results[0]
 		}
+		// ghost variables of iterators / ranges alive at the return (function-internal clauses may use them)
+		for _, it := range st2.Iters() {
+			rv["it_idx"] = st2.cells[it.IdxID]
+			rv["it_n"] = it.N
+			rv["it_seq"] = it.Seq
+		}
 		env := &SpecEnv{ex: ex, vars: rv, cur: st2, old: tc.entry, pkg: ct.Pkg, bound: map[string]T{}}
 		for _, en := range ct.Ensures {
 			t, err := env.TrBool(en.Expr)
